@@ -4,7 +4,7 @@ import glob, json, os, shutil, sys
 sid = sys.argv[1]
 checks = sys.argv[2].split(",")
 src = "/tmp/seed%s/%s/OUT" % (os.environ.get("SEED_ROUND", "2"), sid)
-nid = sid + {"2": "b", "3": "c"}[os.environ.get("SEED_ROUND", "2")]
+nid = sid + {"2": "b", "3": "c", "4": "d"}[os.environ.get("SEED_ROUND", "2")]
 dst = "/verif/seeded/%s" % nid
 os.makedirs(dst, exist_ok=True)
 for f in glob.glob(src + "/*"):
@@ -12,7 +12,9 @@ for f in glob.glob(src + "/*"):
         shutil.copy(f, dst)
 m = json.load(open(src + "/meta.json"))
 m["origin"] = ("independent sub-agent (later round), given only the property text, a hint which files to look at, and a scratch "
-               "worktree of /repo at 1b3edbd")
+               "worktree of /repo at 1b3edbd") if os.environ.get("SEED_ROUND", "2") in ("2", "3") else (
+               "independent sub-agent (round 4), given only the property record (statement, quantifier, why tests cannot settle it, anchor files), "
+               "a kind of manifestation to aim for, and a scratch worktree of /repo")
 m["confirmed_by_me"] = {"scratch_worktree": "/tmp/mut (git worktree of /repo)", "compiles": True,
                         "baseline_stable_tests_passing_with_patch": "69/69 (selftest/verify_seed.py, pinned nextest command)",
                         "demo_without_change": "passes", "demo_with_change": "fails",
